@@ -26,6 +26,7 @@ class TypeUtilityParser {
 
   private:
     RecursiveParser *parser_;
+    int nesting_depth_ = 0; // 型のネストの深さ（スタック枯渇の防止）
 };
 
 #endif // TYPE_UTILITY_PARSER_H
